@@ -1,2 +1,448 @@
--- C14 property theorems (to be written)
-import Nq.Basic
+/-
+  C14 — Bounces go back once, to the sender, and can neither loop nor be forged.
+
+  Model: `Nq.Bounce` (qmail-send.c `stripvdomprepend`, `addbounce`, `del_dochan`'s report handling,
+  `getcontrols`, `injectbounce`), tied to the source by the differential harness
+  `harness/c14_bounce.c`.  The reader's side (`paras`, `governing`, `namedRecipient`, `recipLine`,
+  `sanit`) is `Nq.BounceSpec`; compiled, it is the oracle of `./check C14`.
+  Only property theorems live here.  The daemon-level "once" (messdone/pqdone scheduling, crash
+  windows) is stated over the `Daemon` model in C03/C04; here it is proved for `injectbounce` itself.
+-/
+import Nq.Lemmas.Bounce
+
+namespace Nq.Props.C14
+open Nq Nq.Bounce Nq.BounceSpec Nq.Lemmas.Bounce
+
+/-! ### One failed recipient = exactly one paragraph; report text cannot forge another -/
+
+/-- **One `addbounce` call, one paragraph** — for every recipient, every report (any bytes: empty
+lines, `<x>:` look-alikes, 8-bit) and every virtualdomains table, whatever follows in the file: the
+reader sees exactly one paragraph `core`, then continues between paragraphs.  `core` begins with the
+line naming the recipient and is everything that was written except the final empty line(s). -/
+theorem C14_paragraph (es : List (Bytes × Bytes)) (recip report rest : Bytes) :
+    ∃ core, paras .blank (addbounceText es recip report ++ rest) = core :: paras .blank rest
+      ∧ recipLine (namedRecipient es recip) <+: core
+      ∧ (addbounceText es recip report = core ++ [LF] ∨ addbounceText es recip report = core ++ [LF, LF]) := by
+  refine ⟨paraCore es recip report, paras_addbounceText es recip report rest, ?_, paraCore_prefix es recip report⟩
+  rw [← stripvdom_eq_named]
+  exact recipLine_prefix_paraCore es recip report
+
+/-- …in particular the text written for one failure is one paragraph. -/
+theorem C14_paragraph_one (es : List (Bytes × Bytes)) (recip report : Bytes) :
+    (paragraphs (addbounceText es recip report)).length = 1 := by
+  have := paras_addbounceText es recip report []
+  simp only [List.append_nil] at this
+  simp [paragraphs, this, paras]
+
+/-- The recipient line is a single line: `<`, the address with every LF shown as `_`, `>:` LF. -/
+theorem C14_recipient_line (addr : Bytes) :
+    ∃ r, recipLine addr = 60 :: (r ++ [62, 58, LF]) ∧ LF ∉ r ∧ r.length = addr.length := by
+  refine ⟨addr.map (fun c => if c = LF then 95 else c), rfl, ?_, by simp⟩
+  intro h
+  rw [List.mem_map] at h
+  obtain ⟨a, _, ha⟩ := h
+  by_cases hc : a = LF
+  · simp [hc, LF] at ha
+  · simp [hc] at ha
+
+/-- the i-th paragraph begins with the line naming the i-th failed recipient (and there are equally many) -/
+def NamedInOrder (es : List (Bytes × Bytes)) : List (Bytes × Bytes) → List Bytes → Prop
+  | [], [] => True
+  | f :: fs, p :: ps => recipLine (namedRecipient es f.1) <+: p ∧ NamedInOrder es fs ps
+  | _, _ => False
+
+theorem namedInOrder_cores (es : List (Bytes × Bytes)) (fails : List (Bytes × Bytes)) :
+    NamedInOrder es fails (fails.map (fun f => paraCore es f.1 f.2)) := by
+  induction fails with
+  | nil => simp [NamedInOrder]
+  | cons f fs ih =>
+    simp only [List.map_cons, NamedInOrder]
+    refine ⟨?_, ih⟩
+    rw [← stripvdom_eq_named]
+    exact recipLine_prefix_paraCore es f.1 f.2
+
+theorem paragraphs_bounceFile (es : List (Bytes × Bytes)) (fails : List (Bytes × Bytes)) :
+    paragraphs (bounceFile es fails) = fails.map (fun f => paraCore es f.1 f.2) := by
+  have := paras_bounceFile es fails []
+  simpa [paragraphs, paras] using this
+
+/-- **The bounce file has exactly one paragraph per failed recipient, in order, the i-th naming the
+i-th recipient** — for every list of failures, in any combination and order, with arbitrary report
+bytes.  Report text cannot add, remove or re-label a paragraph. -/
+theorem C14_paragraphs_file (es : List (Bytes × Bytes)) (fails : List (Bytes × Bytes)) :
+    (paragraphs (bounceFile es fails)).length = fails.length ∧
+    NamedInOrder es fails (paragraphs (bounceFile es fails)) := by
+  rw [paragraphs_bounceFile]
+  exact ⟨by simp, namedInOrder_cores es fails⟩
+
+/-- **The failure text follows the recipient line**: the same bytes, except that an LF which
+directly follows an LF (or opens the report) is shown as '/', one final LF is implied, and an empty
+line ends the paragraph. -/
+theorem C14_report_shown (es : List (Bytes × Bytes)) (recip report : Bytes) :
+    ∃ b tail, addbounceText es recip report = recipLine (namedRecipient es recip) ++ b ++ tail
+      ∧ sanit (chomp1 report) b = true ∧ (tail = [LF] ∨ tail = [LF, LF]) := by
+  refine ⟨squashAll true (chomp1 report), if report = [] then [LF] else [LF, LF], ?_, sanit_squashAll _ _, ?_⟩
+  · rw [← stripvdom_eq_named]; exact addbounceText_shape es recip report
+  · split <;> simp
+
+/-- A report without empty lines that does not begin with LF is shown verbatim. -/
+theorem C14_report_verbatim (es : List (Bytes × Bytes)) (recip report : Bytes)
+    (h1 : hasLFLF report = false) (h2 : report.head? ≠ some LF) (h3 : report ≠ []) :
+    addbounceText es recip report = recipLine (namedRecipient es recip) ++ chomp1 report ++ [LF, LF] := by
+  rw [addbounceText_shape, stripvdom_eq_named]
+  have hc1 : hasLFLF (chomp1 report) = false := by
+    unfold chomp1
+    split
+    · rename_i hl
+      have hsp := getLast_split report hl
+      have : ∀ (a b : Bytes), hasLFLF (a ++ b) = false → hasLFLF a = false := by
+        intro a
+        induction a with
+        | nil => intro b _; simp [hasLFLF]
+        | cons c t ih =>
+          intro b h
+          cases t with
+          | nil => simp [hasLFLF]
+          | cons d u =>
+            simp only [List.cons_append, hasLFLF, Bool.or_eq_false_iff] at h ⊢
+            exact ⟨h.1, ih b h.2⟩
+      exact this _ [LF] (by rw [← hsp]; exact h1)
+    · exact h1
+  have hc2 : (chomp1 report).head? ≠ some LF := by
+    unfold chomp1
+    split
+    · cases report with
+      | nil => simp
+      | cons c t =>
+        cases t with
+        | nil => simp
+        | cons d u => simpa using h2
+    · exact h2
+  rw [squashAll_id _ true hc1 (fun _ => hc2)]
+  simp [h3]
+
+/-! ### The virtual-domain prefix -/
+
+/-- **`stripvdomprepend` implements the documented precedence**: the entry that governs the
+recipient's domain (the domain itself, else the longest `.suffix` wildcard, else the catch-all;
+last entry wins, keys case-insensitive) decides, and its `prepend-` is removed exactly when the
+recipient starts with it. -/
+theorem C14_strip (es : List (Bytes × Bytes)) (recip : Bytes) :
+    stripvdom es recip = namedRecipient es recip := stripvdom_eq_named es recip
+
+/-- the prefix is removed when the governing entry's non-empty `prepend` and a dash start the recipient -/
+theorem C14_strip_removed (es : List (Bytes × Bytes)) (recip d p : Bytes)
+    (hd : domainPart recip = some d) (hg : governing es d = some p) (hp : p ≠ [])
+    (hpre : (p ++ [45]) <+: recip) : p ++ 45 :: stripvdom es recip = recip := by
+  rw [stripvdom_eq_named]
+  unfold namedRecipient
+  obtain ⟨t, ht⟩ := hpre
+  have hpb : (p ++ [45]).isPrefixOf recip = true := by
+    rw [List.isPrefixOf_iff_prefix]; exact ⟨t, ht⟩
+  have hpe : p.isEmpty = false := by simpa using hp
+  simp only [hd, hg, hpe, hpb, Bool.not_false, Bool.and_self, if_true]
+  rw [← ht]
+  simp
+
+/-- …and in every other case the recipient is named as it is -/
+theorem C14_strip_kept (es : List (Bytes × Bytes)) (recip : Bytes)
+    (h : ∀ d p, domainPart recip = some d → governing es d = some p → p = [] ∨ ¬ (p ++ [45]) <+: recip) :
+    stripvdom es recip = recip := by
+  rw [stripvdom_eq_named]
+  unfold namedRecipient
+  cases hd : domainPart recip with
+  | none => rfl
+  | some d =>
+    cases hg : governing es d with
+    | none => simp [hg]
+    | some p =>
+      rcases h d p hd hg with hp | hp
+      · simp [hg, hp]
+      · have : (p ++ [45]).isPrefixOf recip = false := by
+          cases hb : (p ++ [45]).isPrefixOf recip with
+          | false => rfl
+          | true => exact absurd (List.isPrefixOf_iff_prefix.mp hb) hp
+        simp only [hg, this, Bool.and_false, Bool.false_eq_true, if_false]
+
+/-- **What `rewrite()` prepends for a virtual domain is what the bounce removes**: if `p` is the
+(non-empty) prepend of the entry governing `addr`'s domain, the local recipient `p-addr` is named
+`addr` in the bounce. -/
+theorem C14_strip_rewrite (es : List (Bytes × Bytes)) (addr d p : Bytes)
+    (hd : domainPart addr = some d) (hg : governing es d = some p) (hp : p ≠ []) :
+    stripvdom es (p ++ 45 :: addr) = addr := by
+  have hd' : domainPart (p ++ 45 :: addr) = some d := by
+    rw [← domainOf_eq_domainPart] at hd ⊢
+    have := domainOf_append (p ++ [45]) addr d hd
+    simpa using this
+  have := C14_strip_removed es (p ++ 45 :: addr) d p hd' hg hp ⟨addr, by simp⟩
+  have h2 : p ++ 45 :: stripvdom es (p ++ 45 :: addr) = p ++ 45 :: addr := this
+  have h3 := List.append_cancel_left h2
+  simpa using h3
+
+/-! ### Where bounces go: sender forms, VERP base address, double bounce, discard -/
+
+/-- a VERP sender `pre-@[]` is answered at `pre` (for `owner-@host-@[]`: at `owner-@host`) -/
+theorem C14_verp_base (pre : Bytes) : verpBase (pre ++ VERPSUF) = pre := by
+  unfold verpBase
+  have : VERPSUF.isSuffixOf (pre ++ VERPSUF) = true := by
+    rw [List.isSuffixOf_iff_suffix]; exact ⟨pre, rfl⟩
+  simp [this, VERPSUF]
+
+/-- any other sender is used as it is -/
+theorem C14_verp_other (s : Bytes) (h : ¬ VERPSUF <:+ s) : verpBase s = s := by
+  unfold verpBase
+  have : VERPSUF.isSuffixOf s = false := by
+    cases hb : VERPSUF.isSuffixOf s with
+    | false => rfl
+    | true => exact absurd (List.isSuffixOf_iff_suffix.mp hb) h
+  simp [this]
+
+/-- **Envelope of every generated notice.**  A bounce has the empty envelope sender and goes to the
+original sender's base address; if the original sender was empty (the failing message was itself a
+bounce) the notice is a double bounce from `#@[]` to `doublebounceto@doublebouncehost`. -/
+theorem C14_envelope (cfg : Cfg) (date bf : Bytes) (m m' : Msg) (h : bounceOf cfg date bf m = some m') :
+    (verpBase m.sender ≠ [] ∧ m'.sender = [] ∧ m'.rcpts = [verpBase m.sender]) ∨
+    (verpBase m.sender = [] ∧ m'.sender = DBSENDER ∧ m'.rcpts = [cfg.doublebounceto]) := by
+  unfold bounceOf decideBounce at h
+  by_cases h1 : verpBase m.sender = DBSENDER
+  · simp [h1] at h
+  · cases h2 : (verpBase m.sender).isEmpty with
+    | true =>
+      simp [h1, h2] at h
+      right
+      rw [← h]
+      exact ⟨by simpa using h2, rfl, rfl⟩
+    | false =>
+      simp [h1, h2] at h
+      left
+      rw [← h]
+      exact ⟨by simpa using h2, rfl, rfl⟩
+
+/-- **A failing double bounce is discarded**: nothing is generated exactly for the sender `#@[]`
+(after VERP-suffix removal). -/
+theorem C14_discard (cfg : Cfg) (date bf : Bytes) (m : Msg) :
+    bounceOf cfg date bf m = none ↔ verpBase m.sender = DBSENDER := by
+  unfold bounceOf decideBounce
+  by_cases h1 : verpBase m.sender = DBSENDER
+  · simp [h1]
+  · by_cases h2 : (verpBase m.sender).isEmpty = true <;> simp [h1, h2]
+
+/-- `m'` is the notice generated when `m` fails (for some date and some recorded failures) -/
+def Bounces (cfg : Cfg) (m m' : Msg) : Prop := ∃ date bf, bounceOf cfg date bf m = some m'
+
+def isChain (R : Msg → Msg → Prop) : List Msg → Prop
+  | [] => True
+  | [_] => True
+  | a :: b :: t => R a b ∧ isChain R (b :: t)
+
+/-- the notice for a bounce is a double bounce, and the notice for a double bounce does not exist -/
+theorem C14_chain_step (cfg : Cfg) (m0 m1 m2 : Msg) (h1 : Bounces cfg m0 m1) (h2 : Bounces cfg m1 m2) :
+    m1.sender = [] ∧ m2.sender = DBSENDER ∧ m2.rcpts = [cfg.doublebounceto] ∧ ∀ m3, ¬ Bounces cfg m2 m3 := by
+  obtain ⟨d1, b1, h1⟩ := h1
+  obtain ⟨d2, b2, h2⟩ := h2
+  have e1 := C14_envelope cfg d1 b1 m0 m1 h1
+  have hs1 : m1.sender = [] := by
+    rcases e1 with ⟨_, hs, _⟩ | ⟨_, hs, _⟩
+    · exact hs
+    · -- a double bounce generates nothing, contradiction with h2
+      have : bounceOf cfg d2 b2 m1 = none := (C14_discard cfg d2 b2 m1).mpr (by rw [hs]; decide)
+      rw [this] at h2; cases h2
+  have e2 := C14_envelope cfg d2 b2 m1 m2 h2
+  have hv : verpBase m1.sender = [] := by rw [hs1]; decide
+  rcases e2 with ⟨hne, _, _⟩ | ⟨_, hs2, hr2⟩
+  · exact absurd hv hne
+  · refine ⟨hs1, hs2, hr2, ?_⟩
+    intro m3 ⟨d3, b3, h3⟩
+    have : bounceOf cfg d3 b3 m2 = none := (C14_discard cfg d3 b3 m2).mpr (by rw [hs2]; decide)
+    rw [this] at h3; cases h3
+
+/-- **Bounce loops are impossible**: every chain message → notice → notice → … has at most three
+members (the message, its bounce, the double bounce), for every configuration and every original
+sender. -/
+theorem C14_chain (cfg : Cfg) (l : List Msg) (h : isChain (Bounces cfg) l) : l.length ≤ 3 := by
+  match l, h with
+  | [], _ => simp
+  | [_], _ => simp
+  | [_, _], _ => simp
+  | [_, _, _], _ => simp
+  | m0 :: m1 :: m2 :: m3 :: t, h =>
+    simp only [isChain] at h
+    exact absurd h.2.2.1 ((C14_chain_step cfg m0 m1 m2 h.1 h.2.1).2.2.2 m3)
+
+/-- **The notice contains the recorded failures and ends with the original message.** -/
+theorem C14_original_appended (cfg : Cfg) (date bf : Bytes) (m m' : Msg) (h : bounceOf cfg date bf m = some m') :
+    m.body <:+ m'.body ∧ bf <:+: m'.body := by
+  have hsuf : ∀ (single : Bool) (base x : Bytes), m.body <:+ x ++ trailer single base m.body := by
+    intro single base x
+    refine ⟨x ++ ((if single then markerSingle else markerDouble) ++ str "Return-Path: <" ++ Quote.quote2 base ++ str ">\n"), ?_⟩
+    simp [trailer, List.append_assoc]
+  unfold bounceOf at h
+  cases hd : decideBounce m.sender with
+  | discard => simp [hd] at h
+  | double =>
+    simp only [hd, Option.some.injEq] at h
+    rw [← h]
+    exact ⟨hsuf _ _ _, ⟨_, _, rfl⟩⟩
+  | single r =>
+    simp only [hd, Option.some.injEq] at h
+    rw [← h]
+    exact ⟨hsuf _ _ _, ⟨_, _, rfl⟩⟩
+
+/-- **In the notice each failed recipient occupies exactly one paragraph.**  The text is
+`pre ++ bounce file ++ post` (`pre` = header and introduction, `post` = the "Below this line" marker,
+Return-Path and the original message); read as paragraphs it is the paragraphs of `pre`, then one
+paragraph per failed recipient — the i-th naming the i-th recipient — then the paragraphs of `post`:
+neither report text nor recipient addresses nor the original message can change that count or
+re-label one of those paragraphs. -/
+theorem C14_notice_paragraphs (cfg : Cfg) (date : Bytes) (fails : List (Bytes × Bytes)) (m m' : Msg)
+    (h : bounceOf cfg date (bounceFile cfg.vdoms fails) m = some m') :
+    ∃ pre post ps, m'.body = pre ++ bounceFile cfg.vdoms fails ++ post
+      ∧ paragraphs m'.body = paragraphs pre ++ ps ++ paragraphs post
+      ∧ ps.length = fails.length
+      ∧ NamedInOrder cfg.vdoms fails ps
+      ∧ m.body <:+ post := by
+  have key : ∀ (pre0 intro post : Bytes), (intro = introSingle ∨ intro = introDouble) →
+      paragraphs ((pre0 ++ intro) ++ bounceFile cfg.vdoms fails ++ post)
+        = paragraphs (pre0 ++ intro) ++ paragraphs (bounceFile cfg.vdoms fails) ++ paragraphs post := by
+    intro pre0 intro post hi
+    have hb : endSt .blank (pre0 ++ intro) = .blank := by
+      rcases hi with hi | hi <;> subst hi
+      · unfold introSingle; rw [← List.append_assoc]; exact endSt_LFLF _ _
+      · unfold introDouble; rw [← List.append_assoc]; exact endSt_LFLF _ _
+    rw [paragraphs_bounceFile]
+    unfold paragraphs
+    rw [List.append_assoc (pre0 ++ intro), paras_append_blank _ _ _ hb, paras_bounceFile, List.append_assoc]
+  have hf := C14_paragraphs_file cfg.vdoms fails
+  have hsuf : ∀ (single : Bool) (base : Bytes), m.body <:+ trailer single base m.body := by
+    intro single base
+    refine ⟨(if single then markerSingle else markerDouble) ++ str "Return-Path: <" ++ Quote.quote2 base ++ str ">\n", ?_⟩
+    simp [trailer, List.append_assoc]
+  unfold bounceOf at h
+  cases hd : decideBounce m.sender with
+  | discard => simp [hd] at h
+  | double =>
+    simp only [hd, Option.some.injEq] at h
+    rw [← h]
+    refine ⟨preamble cfg date cfg.doublebounceto false, trailer false [] m.body,
+      paragraphs (bounceFile cfg.vdoms fails), rfl, ?_, hf.1, hf.2, hsuf _ _⟩
+    unfold preamble
+    simp only [Bool.false_eq_true, if_false]
+    exact key _ introDouble _ (Or.inr rfl)
+  | single r =>
+    simp only [hd, Option.some.injEq] at h
+    rw [← h]
+    refine ⟨preamble cfg date r true, trailer true r m.body,
+      paragraphs (bounceFile cfg.vdoms fails), rfl, ?_, hf.1, hf.2, hsuf _ _⟩
+    unfold preamble
+    simp only [if_true]
+    exact key _ introSingle _ (Or.inl rfl)
+
+/-! ### Once: `injectbounce` queues first and removes `bounce/<id>` afterwards -/
+
+/-- **After a successful call nothing more is ever sent for this message**: the bounce file is gone,
+so any later call (whatever faults it meets) queues nothing. -/
+theorem C14_once (cfg : Cfg) (date date' : Bytes) (id qp qp' : Nat) (f f' : Fault)
+    (sender : Bytes) (bounce : Option Bytes) (mess : Bytes)
+    (h : (inject cfg date id qp f sender bounce mess).ret = true) :
+    (inject cfg date id qp f sender bounce mess).bounce = none ∧
+    (inject cfg date' id qp' f' sender (inject cfg date id qp f sender bounce mess).bounce mess).queued = none := by
+  have hb : (inject cfg date id qp f sender bounce mess).bounce = none := by
+    cases bounce with
+    | none => cases f <;> simp [inject] at h ⊢
+    | some bf =>
+      cases hb : bounceOf cfg date bf { sender := sender, rcpts := [], body := mess } <;>
+      cases f <;> simp [inject, hb] at h ⊢
+  refine ⟨hb, ?_⟩
+  rw [hb]
+  cases f' <;> simp [inject]
+
+/-- **The bounce file is removed only after the notice was queued** (or, for the failure of a double
+bounce, deliberately discarded): if `bounce/<id>` is gone after the call, the call handed exactly the
+notice `bounceOf …` to qmail-queue and qmail-queue accepted it (`none` only for sender `#@[]`). -/
+theorem C14_unlink_after_queue (cfg : Cfg) (date : Bytes) (id qp : Nat) (f : Fault)
+    (sender bf mess : Bytes)
+    (h : (inject cfg date id qp f sender (some bf) mess).bounce = none) :
+    (inject cfg date id qp f sender (some bf) mess).queued
+        = bounceOf cfg date bf { sender := sender, rcpts := [], body := mess } := by
+  cases hb : bounceOf cfg date bf { sender := sender, rcpts := [], body := mess } <;>
+  cases f <;> simp [inject, hb] at h ⊢
+
+/-- **A call that fails loses nothing**: the bounce file is unchanged, so the retry (qmail-send
+re-schedules the message SLEEP_SYSFAIL seconds later) starts from the same state. -/
+theorem C14_retry (cfg : Cfg) (date : Bytes) (id qp : Nat) (f : Fault)
+    (sender : Bytes) (bounce : Option Bytes) (mess : Bytes)
+    (h : (inject cfg date id qp f sender bounce mess).ret = false) :
+    (inject cfg date id qp f sender bounce mess).bounce = bounce := by
+  cases bounce with
+  | none => cases f <;> simp [inject] at h ⊢
+  | some bf =>
+    cases hb : bounceOf cfg date bf { sender := sender, rcpts := [], body := mess } <;>
+    cases f <;> simp [inject, hb] at h ⊢
+
+/-- The only failing call that has already queued the notice is the one whose `unlink` failed
+(the notice will then be sent again by the retry: at-least-once, the documented trade-off). -/
+theorem C14_duplicate_only_on_unlink_failure (cfg : Cfg) (date : Bytes) (id qp : Nat) (f : Fault)
+    (sender : Bytes) (bounce : Option Bytes) (mess : Bytes)
+    (h : (inject cfg date id qp f sender bounce mess).ret = false)
+    (hq : (inject cfg date id qp f sender bounce mess).queued ≠ none) : f = .unlink := by
+  cases bounce with
+  | none => cases f <;> simp [inject] at h hq ⊢
+  | some bf =>
+    cases hb : bounceOf cfg date bf { sender := sender, rcpts := [], body := mess } <;>
+    cases f <;> simp [inject, hb] at h hq ⊢
+
+/-- Without faults a recorded failure always produces its notice (or the documented discard). -/
+theorem C14_every_failure_bounces (cfg : Cfg) (date : Bytes) (id qp : Nat) (sender bf mess : Bytes) :
+    (inject cfg date id qp .none sender (some bf) mess).ret = true ∧
+    (inject cfg date id qp .none sender (some bf) mess).queued
+        = bounceOf cfg date bf { sender := sender, rcpts := [], body := mess } := by
+  cases hb : bounceOf cfg date bf { sender := sender, rcpts := [], body := mess } <;> simp [inject, hb]
+
+/-! ### Which reports become bounce paragraphs (del_dochan) -/
+
+/-- a permanent failure report (status `D`) of ordinary length is recorded with its text -/
+theorem C14_report_D (dying : Bool) (n : Byte) (text : Bytes) (h : text.length + 2 ≤ Gen.REPORTMAX) :
+    delReport dying (n :: 68 :: text) = some text := by
+  unfold delReport
+  have : (n :: 68 :: text).take Gen.REPORTMAX = n :: 68 :: text := List.take_of_length_le (by simpa using h)
+  simp [this]
+
+/-- **A temporary failure past the queue lifetime is a permanent one**: status `Z` on a dying
+message is recorded with the explanation appended … -/
+theorem C14_report_expired (n : Byte) (text : Bytes) (h : text.length + 2 < Gen.REPORTMAX) :
+    delReport true (n :: 90 :: text) = some (text ++ dyingText) := by
+  unfold delReport
+  have h1 : (n :: 90 :: text).take Gen.REPORTMAX = n :: 90 :: text := List.take_of_length_le (by simp; omega)
+  have h2 : (n :: 90 :: text).take (Gen.REPORTMAX - 1) = n :: 90 :: text := List.take_of_length_le (by simp; omega)
+  simp [h1, h2]
+
+/-- … while before expiry (`Z`), on success (`K`) or on a mangled report nothing is recorded. -/
+theorem C14_report_none (n st : Byte) (text : Bytes) (h : st ≠ 68) (h' : st ≠ 90) (dying : Bool) :
+    delReport dying (n :: st :: text) = none ∧ delReport false (n :: 90 :: text) = none := by
+  unfold delReport
+  have : Gen.REPORTMAX = 9998 + 2 := rfl
+  simp [this, List.take, h, h']
+
+/-! ### Non-vacuity: concrete inputs (bytes written out) -/
+
+/-- report "\n\n<v>:\nx" against recipient "a@b": the forged paragraph stays inside the one paragraph -/
+example : addbounceText [] [97, 64, 98] [10, 10, 60, 118, 62, 58, 10, 120]
+    = [60, 97, 64, 98, 62, 58, 10, 47, 47, 60, 118, 62, 58, 10, 120, 10, 10] := by decide
+example : paragraphs (addbounceText [] [97, 64, 98] [10, 10, 60, 118, 62, 58, 10, 120])
+    = [[60, 97, 64, 98, 62, 58, 10, 47, 47, 60, 118, 62, 58, 10, 120, 10]] := by decide
+/-- a report ending in an empty line leaves two empty lines, still one paragraph -/
+example : addbounceText [] [97, 64, 98] [120, 10, 10] = [60, 97, 64, 98, 62, 58, 10, 120, 10, 10, 10] := by decide
+/-- recipient "p-a\n@b" with entry "b:p": prefix removed, LF shown as '_' -/
+example : addbounceText [([98], [112])] [112, 45, 97, 10, 64, 98] [] = [60, 97, 95, 64, 98, 62, 58, 10, 10] := by decide
+/-- wildcard ".b:q" governs "x.b", exception "a.b:" keeps "q-u@a.b" as it is -/
+example : stripvdom [([46, 98], [113]), ([97, 46, 98], [])] [113, 45, 117, 64, 120, 46, 98] = [117, 64, 120, 46, 98] := by decide
+example : stripvdom [([46, 98], [113]), ([97, 46, 98], [])] [113, 45, 117, 64, 97, 46, 98] = [113, 45, 117, 64, 97, 46, 98] := by decide
+/-- what the code does for a virtual *user* entry "u@b:p" (rewrite() prepends, the bounce keeps the prefix) -/
+example : stripvdom [([117, 64, 98], [112])] [112, 45, 117, 64, 98] = [112, 45, 117, 64, 98] := by decide
+/-- sender forms: "x-@h-@[]" -> single bounce to "x-@h"; "" -> double; "#@[]" -> discard; "-@[]" -> double -/
+example : decideBounce [120, 45, 64, 104, 45, 64, 91, 93] = .single [120, 45, 64, 104] := by decide
+example : decideBounce [] = .double := by decide
+example : decideBounce [35, 64, 91, 93] = .discard := by decide
+example : decideBounce [45, 64, 91, 93] = .double := by decide
+
+end Nq.Props.C14
